@@ -14,7 +14,7 @@ AddrA == [wc |-> Zeros(8), hash |-> Zeros(256)]
 AddrB == [wc |-> Ones(8), hash |-> Msb(256)]
 CC0 == [grams |-> <<>>, other |-> <<>>]
 
-RECURSIVE Menu(_), Base(_), Vary(_), BaseAlt(_), VaryAlt(_)
+RECURSIVE Menu(_), Base(_), Vary(_), BaseAlt(_), VaryAlt(_), Rich(_, _), RichAlt(_, _)
 Menu(t) ==
     CASE t.k \in {"U", "I"} -> {Zeros(t.n), Ones(t.n), Msb(t.n), NatBits(1, t.n)}
       [] t.k = "Bits" -> {Zeros(t.n), Ones(t.n), Msb(t.n)}
@@ -44,6 +44,8 @@ Base(t) ==
       [] t.k = "Named" -> BaseAlt(Schema[t.nm][1])
       [] t.k \in {"HmE"} -> <<>>
       [] t.k = "Hm" -> <<[k |-> Zeros(t.n), v |-> Base(t.t)]>>
+      [] t.k = "Lite" -> Base(t.t)
+      [] t.k = "HmAug" -> <<[k |-> Zeros(t.n), v |-> Base(t.t), x |-> Base(t.x)]>>
       [] t.k \in {"If", "IfBit"} -> Base(t.t)                     \* present in the record, encoded only when the flag is set
       [] t.k = "RefPick" -> [v0 |-> Base(t.t0), v1 |-> Base(t.t1)]
 FieldOf(a, x) == (CHOOSE i \in 1..Len(a.fs) : a.fs[i].name = x)
@@ -59,6 +61,11 @@ Vary(t) ==
       [] t.k = "Hm" -> {<<[k |-> Msb(t.n), v |-> x]>> : x \in Vary(t.t)}
                        \cup {<<[k |-> Zeros(t.n), v |-> Base(t.t)], [k |-> Ones(t.n), v |-> Base(t.t)]>>}
       [] t.k \in {"If", "IfBit"} -> Vary(t.t)
+      [] t.k = "Lite" -> {Base(t.t), Rich(t.t, 2)}
+      [] t.k = "HmAug" -> {<<[k |-> Msb(t.n), v |-> x, x |-> Rich(t.x, 1)]>> : x \in Vary(t.t)}
+                          \cup {<<[k |-> Zeros(t.n), v |-> Base(t.t), x |-> Base(t.x)], [k |-> Ones(t.n), v |-> Base(t.t), x |-> Rich(t.x, 1)]>>,
+                                <<[k |-> Zeros(t.n), v |-> Base(t.t), x |-> Rich(t.x, 1)], [k |-> NatBits(1, t.n), v |-> Rich(t.t, 2), x |-> Base(t.x)],
+                                  [k |-> Msb(t.n), v |-> Base(t.t), x |-> Rich(t.x, 1)], [k |-> Ones(t.n), v |-> Base(t.t), x |-> Base(t.x)]>>}
       [] t.k = "RefPick" -> {[v0 |-> x, v1 |-> Base(t.t1)] : x \in Vary(t.t0)} \cup {[v0 |-> Base(t.t0), v1 |-> x] : x \in Vary(t.t1)}
 \* vary one field at a time; a conditional field is also varied with its flag switched on
 SetFlag(a, rec, f) == CASE f.t.k = "If" -> [rec EXCEPT ![f.t.fl] = <<1>>]
@@ -70,4 +77,49 @@ VaryAlt(a) == {BaseAlt(a)}
                     i \in {j \in 1..Len(a.fs) : a.fs[j].t.k \in {"If", "IfBit"}}}
     \cup UNION {{[BaseAlt(a) EXCEPT ![a.fs[i].t.fl] = <<1>>]} : i \in {j \in 1..Len(a.fs) : a.fs[j].t.k = "RefPick"}}
 Values(nm) == Vary(Named(nm))
+
+\* ---- a second base value: every leaf non-zero and distinctive, every optional part present, the LAST alternative of every
+\* named type (fuel bounds the nesting of named types; below it the plain base value is used).  A parser that reads a field
+\* at the wrong offset or width reports a visibly different value, which the all-zero base cannot show.
+Pat(n) == [i \in 1..n |-> IF i % 3 = 0 THEN 0 ELSE 1]           \* 110110...: top bit set, not all ones
+RichLeaf(t) ==
+    CASE t.k \in {"U", "I", "Bits", "UPos"} -> Pat(t.n)
+      [] t.k = "Zero" -> Zeros(t.n)
+      [] t.k = "One" -> NatBits(1, t.n)
+      [] t.k = "UMax" -> NatBits(t.m, t.n)
+      [] t.k = "Bool" -> <<1>>
+      [] t.k = "VarU" -> IF t.n > 2 THEN <<2, 77>> ELSE <<5>>
+      [] t.k = "VarI" -> IF t.n > 2 THEN <<255, 3>> ELSE <<251>>
+      [] t.k = "Leq" -> NatBits((t.n + 1) \div 2, BitLen(t.n))
+      [] t.k = "AddrInt" -> [wc |-> Pat(8), hash |-> Pat(256)]
+      [] t.k = "AddrExt" -> <<<<1, 0, 1, 1, 0>>>>
+      [] t.k = "CC" -> [grams |-> <<2, 77>>, other |-> <<[k |-> NatBits(5, 32), v |-> <<9>>], [k |-> NatBits(70000, 32), v |-> <<1, 2>>]>>]
+      [] t.k = "RefCell" -> CellB
+      [] t.k = "AnyRest" -> CellC
+Rich(t, fuel) ==
+    CASE IsLeaf(t) -> RichLeaf(t)
+      [] t.k = "Maybe" -> <<Rich(t.t, fuel)>>
+      [] t.k = "Either" -> [side |-> 1, v |-> Rich(t.r, fuel)]
+      [] t.k \in {"Ref", "Lite", "If", "IfBit"} -> Rich(t.t, fuel)
+      [] t.k = "Named" -> IF fuel = 0 THEN Base(t) ELSE RichAlt(Schema[t.nm][Len(Schema[t.nm])], fuel - 1)
+      [] t.k \in {"HmE", "Hm"} -> <<[k |-> [i \in 1..t.n |-> IF i = 1 THEN 0 ELSE (IF i % 3 = 0 THEN 0 ELSE 1)], v |-> Rich(t.t, fuel)],
+                                   [k |-> Ones(t.n), v |-> Base(t.t)]>>
+      [] t.k = "HmAug" -> <<[k |-> [i \in 1..t.n |-> IF i = 1 THEN 0 ELSE (IF i % 3 = 0 THEN 0 ELSE 1)], v |-> Rich(t.t, fuel), x |-> Rich(t.x, 1)],
+                            [k |-> Ones(t.n), v |-> Base(t.t), x |-> Base(t.x)]>>
+      [] t.k = "RefPick" -> [v0 |-> Rich(t.t0, fuel), v1 |-> Rich(t.t1, fuel)]
+RichAlt(a, fuel) == [x \in {"c"} \cup {a.fs[i].name : i \in 1..Len(a.fs)} |-> IF x = "c" THEN a.c ELSE Rich(a.fs[FieldOf(a, x)].t, fuel)]
+RichFuel == 3
+\* one factor at a time around the rich base (all flags are set in it, so conditional fields are encoded)
+RichVary(a) == {RichAlt(a, RichFuel)} \cup UNION {{[RichAlt(a, RichFuel) EXCEPT ![a.fs[i].name] = x] : x \in Vary(a.fs[i].t)} : i \in 1..Len(a.fs)}
+\* every combination of optional parts (Maybe, HashmapE, flag?T, ^(T flag)) present / absent around the rich base;
+\* beyond 6 optional parts: all combinations with at most two present or at most two absent
+OptIdx(a) == {i \in 1..Len(a.fs) : a.fs[i].t.k \in {"Maybe", "HmE", "If", "IfBit", "RefPick"}}
+Absent(rec, f) == CASE f.t.k \in {"Maybe", "HmE"} -> [rec EXCEPT ![f.name] = <<>>]
+                    [] f.t.k \in {"If", "RefPick"} -> [rec EXCEPT ![f.t.fl] = <<0>>]
+                    [] f.t.k = "IfBit" -> [rec EXCEPT ![f.t.fl] = [i \in 1..Len(@) |-> IF i = Len(@) - f.t.bit THEN 0 ELSE @[i]]]
+OptCombos(a) ==
+    LET OI == OptIdx(a)
+        subsets == IF Cardinality(OI) <= 6 THEN SUBSET OI ELSE {S \in SUBSET OI : Cardinality(S) <= 2 \/ Cardinality(OI \ S) <= 2}
+    IN {FoldLeft(LAMBDA rec, i : Absent(rec, a.fs[i]), RichAlt(a, RichFuel), SetToSeq(S)) : S \in subsets}
+TopValues(nm) == Values(nm) \cup UNION {RichVary(Schema[nm][i]) \cup OptCombos(Schema[nm][i]) : i \in 1..Len(Schema[nm])}
 =============================================================================
